@@ -41,6 +41,7 @@ type fakePeer struct {
 	// fake's outbound stream (fake -> node); fake's endpoint
 	out *simStream
 
+	version int
 	recv    []wireObs
 	rbuf    []byte
 	badWire int
@@ -304,6 +305,17 @@ func rpcIWant(ids ...string) *pb.RPC {
 }
 func rpcIDontWant(ids ...string) *pb.RPC {
 	return &pb.RPC{Control: &pb.ControlMessage{Idontwant: []*pb.ControlIDontWant{{MessageIDs: ids}}}}
+}
+
+func rpcExtensions(partial, test bool) *pb.RPC {
+	e := &pb.ControlExtensions{}
+	if partial {
+		e.PartialMessages = &partial
+	}
+	if test {
+		e.TestExtension = &test
+	}
+	return &pb.RPC{Control: &pb.ControlMessage{Extensions: e}}
 }
 
 func midOf(m *pb.Message) string { return DefaultMsgIdFn(m) }
